@@ -81,6 +81,8 @@ pub fn ladder(kind: &str, n: usize) -> Option<String> {
         "doc-tuple" => format!("---@type {}A{}\nlocal x", rep("[", n), rep("]", n)),
         "doc-keyof" => format!("---@type {}A\nlocal x", rep("keyof ", n)),
         "doc-conditional" => format!("---@alias X {}A{}\n", rep("A extends B and (", n), rep(") or C", n)),
+        "doc-conditional-chain" => format!("---@alias X {}A{}\n", rep("A extends B and ", n), rep(" or C", n)),
+        "doc-conditional-else-chain" => format!("---@alias X {}A\n", rep("A extends B and C or ", n)),
         "doc-multiline-union" => format!("---@alias X\n{}\n", rep("---| 'a'\n", n)),
         "doc-param-fun" => format!("---@param a {}A{}\nfunction f(a) end", rep("fun(x: ", n), rep("): A", n)),
         "doc-overload" => format!("---@overload {}A{}\nlocal x", rep("fun(a: ", n), rep(")", n)),
@@ -100,7 +102,7 @@ pub const LADDERS: &[&str] = &[
     "call-chain", "string-call", "ternary", "semicolons", "labels", "return-nest", "mixed", "ends", "closers", "long-bracket",
     "long-string-eq", "comment-lines", "doc-lines", "doc-paren", "doc-paren-open", "doc-generic", "doc-generic-open", "doc-union",
     "doc-intersection", "doc-array", "doc-nullable", "doc-fun", "doc-fun-ret", "doc-object", "doc-tuple", "doc-keyof",
-    "doc-conditional", "doc-multiline-union", "doc-param-fun", "doc-overload", "doc-class-generic", "doc-cast", "doc-attribute",
+    "doc-conditional", "doc-conditional-chain", "doc-conditional-else-chain", "doc-multiline-union", "doc-param-fun", "doc-overload", "doc-class-generic", "doc-cast", "doc-attribute",
     "doc-in-nest", "nested-comment-in-table",
 ];
 
@@ -339,6 +341,14 @@ pub fn run(args: &Args, report: &mut Report) {
             Outcome::Timeout(ms) => report.oracle_failure(json!({"input": input, "what": format!("no result within the budget of {ms} ms"), "class": classify(c)})),
         }
     }
+    // tie of the token-layer model used by the C02 theorems (`Core.bump`, `Core.chunkLoop`): the real
+    // event streams of the small cases that parsed fine in the child
+    let tie_cases: Vec<(String, LuaLanguageLevel, bool)> = cases.iter().zip(outcomes.iter())
+        .filter(|(c, o)| c.text.len() <= 4096 && matches!(o, Outcome::Ok { .. }))
+        .map(|(c, _)| (c.text.clone(), c.level, c.doc))
+        .take(if args.thorough() { 20_000 } else { 3_000 })
+        .collect();
+    crate::c01::tie_core(&tie_cases, report);
     report.extra.insert("first_depth_reporting_too_many_levels".into(), json!(first_too_deep));
     report.extra.insert("max_micros_per_byte_on_inputs_over_4KiB".into(), json!(max_us_per_byte));
     report.extra.insert("stack_bytes".into(), json!(STACK_BYTES));
